@@ -132,6 +132,18 @@ def run(chk):
     mo = lib.run_cases(model, fd)
     io = lib.run_cases(exe, fd)
     bad = chk.compare(fd, mo, io, lambda c, m, r: "c=" in r)
+    # the same tuples against the statement itself: the normalised shape is the caller's without its size-1 dimensions (all ones: one element)
+    nf0 = 0
+    for c, r in zip(fd, io):
+        t = [int(x, 16) for x in c.split(" ")[1].split(",")]
+        sq = [v for v in t if v > 1] or ([1] if any(t) else [])
+        want = list(reversed(sq)) + [0] * (5 - len(sq))
+        d = kv(r)
+        if "c" in d and ([int(x, 16) for x in d["c"].split(",")] != want or int(d.get("fdim", "0"), 16) != len(sq)):
+            nf0 += 1
+            if nf0 <= 3:
+                chk.violation("filterDimension turns the shape %s into %s (rank %s); without its size-1 dimensions it is %s" % (
+                    [v for v in t if v], d["c"], d.get("fdim"), sq), {"case": c, "impl": r, "variant": "asan"})
     if bad:
         i = bad[0]
         chk.broken.append("correspondence T1/T3 filterDimension on %d tuples, first `%s`: model `%s` impl `%s`" % (len(bad), fd[i], mo[i], io[i]))
